@@ -540,7 +540,66 @@ def rule_memo_immutable(model):
     return r
 
 
-RULES = [rule_memo_immutable, rule_hidden_state, rule_recook, rule_getstate, rule_file,
+def _engine_number(model, fi, e, _depth=0):
+    """A number the engine computes itself (constant, len(), arithmetic of
+    those, a local that only ever holds such)."""
+    if isinstance(e, ast.Constant):
+        return isinstance(e.value, (int, float)) and not isinstance(
+            e.value, bool)
+    if isinstance(e, ast.Call) and isinstance(e.func, ast.Name) and \
+            e.func.id in ('len', 'int', 'float', 'ord'):
+        return True
+    if isinstance(e, ast.BinOp):
+        return _engine_number(model, fi, e.left, _depth) and \
+            _engine_number(model, fi, e.right, _depth)
+    if isinstance(e, ast.UnaryOp):
+        return _engine_number(model, fi, e.operand, _depth)
+    if isinstance(e, ast.Name) and _depth < 3:
+        defs = model.local_defs(fi, e.id)
+        return bool(defs) and all(
+            isinstance(d, ast.AST) and _engine_number(model, fi, d,
+                                                      _depth + 1)
+            or (isinstance(d, tuple) and d[0] == 'aug')
+            for d in defs)
+    return False
+
+
+def rule_inplace_accumulators(model):
+    r = RuleResult('C17.R10', 'an accumulator that starts as a number is '
+                   'updated in place (`acc += x`) only with numbers the '
+                   'engine computes itself: with a value taken from client '
+                   'data `0 + x` may be the client\'s own object '
+                   '(`__radd__` returning self) and the next `+=` updates '
+                   'that object in place')
+    from ..shared import render_functions
+    n = 0
+    for fi in render_functions(model):
+        for x in own_nodes(fi.node):
+            if not (isinstance(x, ast.AugAssign) and isinstance(
+                    x.target, ast.Name)):
+                continue
+            inits = [d for d in model.local_defs(fi, x.target.id)
+                     if isinstance(d, ast.Constant)]
+            if not (inits and all(isinstance(d.value, (int, float))
+                                  for d in inits)):
+                continue
+            n += 1
+            ok = _engine_number(model, fi, x.value)
+            r.instance(fi.where, x, 'engine number' if ok
+                       else 'CLIENT VALUE ADDED IN PLACE')
+            if not ok:
+                r.finding(fi.where, x, f'`{norm(x)}`: the accumulator '
+                          f'starts as a number and `{norm(x.value)}` comes '
+                          'from the data being rendered; after the first '
+                          'round the accumulator may be an object of the '
+                          'caller, which the in-place operator then '
+                          'modifies (the spelled-out `acc = acc + x` makes '
+                          'a new object)', node=x, ctx=fi)
+    r.instance('<render code>', 'augmented assignments', f'{n} examined')
+    return r
+
+
+RULES = [rule_inplace_accumulators, rule_memo_immutable, rule_hidden_state, rule_recook, rule_getstate, rule_file,
          rule_caller_data, rule_defaults, rule_munge, rule_one_shot]
 EXPLANATION = (
     'Enumeration of attribute / item stores and container mutations in '
